@@ -539,7 +539,8 @@ impl<'a, 't, 'g> VGen<'a, 't, 'g> {
             let v = info.values[self.t.below(info.values.len())].clone();
             let mut value = EnumeratedValue::new(&v);
             if self.t.ratio(1, 5) && self.g.want("ENUM_INITIAL_VALUE_WITH_TYPE_PREFIX") {
-                value.type_name = Some(Type::from(&info.name));
+                // (the prefix names a type like any other use of a type name: site of UnknownType)
+                value.type_name = Some(self.type_ref(&info.name));
             }
             let mut drop_init = false;
             if self.site(FaultKind::EnumInitNotMember) {
